@@ -303,6 +303,35 @@ Fixpoint arun (a : anystate) (ops : list op) : list (list out * ((list Z * optio
   | o :: rest => let '(a', outs) := astep a o in (outs, aobs a') :: arun a' rest
   end.
 
+(* ---------- callback-driven paging (the documented asynchronous pattern) ----------
+   future = session.execute_async(...); future.add_callbacks(handle_page, handle_error)
+   handle_page(rows): consume rows; if future.has_more_pages: future.start_fetching_next_page() else: done
+   handle_error(exc): give up.
+   ResponseFuture.add_callback ALWAYS appends the callback to _callbacks and additionally runs it at once when the
+   result is already there (`early`: the first page arrived before add_callbacks was reached); _set_final_result of
+   every later page runs what is registered. *)
+Definition add_callback_registers (result_already_there : bool) : bool := true.
+
+(* the handler has just asked for the page after the one carrying state st; reg: is it (still) in _callbacks? *)
+Fixpoint async_from (reg : bool) (st : Z) (srv : server) : list out * list Z * bool :=
+  match srv with
+  | Last rs => ([Req (Some st)], if reg then rs else [], reg)
+  | More rs st' rest =>
+      if reg then let '(o, r, f) := async_from reg st' rest in (Req (Some st) :: o, rs ++ r, f)
+      else ([Req (Some st)], [], false)            (* the page arrives, nobody is told *)
+  | Fail rest => ([Req (Some st)], [], false)      (* errback *)
+  | Spec rest => let '(o, r, f) := async_from reg st rest in (Req (Some st) :: o, r, f)
+  end.
+
+(* (requests, rows handed to the handler, handler finished) *)
+Definition async_pages (early : bool) (srv : server) : list out * list Z * bool :=
+  let '(s0, o0) := init srv in
+  let reg := add_callback_registers early in        (* the first page is handled either way: at once or by the callback run *)
+  match more s0 with
+  | None => (o0, cur s0, true)
+  | Some (st, rest) => let '(o, r, f) := async_from reg st rest in (o0 ++ o, cur s0 ++ r, f)
+  end.
+
 (* the user-level readings of the statement *)
 (* iteration: list(result_set) right after execute() *)
 Definition iterate (srv : server) : list out * val :=
@@ -387,3 +416,6 @@ Definition check_case_cont (srv : server) (ops : list op)
   let '(a0, o0) := init_cont srv in
   outs_eqb o0 (fst init_obs) && obs_eqb (fst (aobs a0)) (fst (snd init_obs)) && Bool.eqb (snd (aobs a0)) (snd (snd init_obs))
   && atrace_eqb (arun a0 ops) tr.
+
+Definition check_async (early : bool) (srv : server) (rq : list out) (rows : list Z) (fin : bool) : bool :=
+  let '(o, r, f) := async_pages early srv in outs_eqb o rq && zlist_eqb r rows && Bool.eqb f fin.
